@@ -46,7 +46,12 @@ fn put_all(words: &mut [usize], bits: &[bool]) {
     }
 }
 
-fn observe<B: AsRef<[usize]>>(v: &BitVec<B>, st: &mut St, op: &str) {
+// One monomorphic copy of the observer per backend type, written in the method-call syntax a
+// user writes: an inherent method added to one concrete `BitVec<...>` type shadows the trait
+// method there and only there, and a single generic observer would never resolve to it.
+macro_rules! observe_fn {
+    ($name:ident, $ty:ty) => {
+        fn $name(v: &$ty, st: &mut St, op: &str) {
     if st.ctx.failed() {
         return;
     }
@@ -189,6 +194,12 @@ fn observe<B: AsRef<[usize]>>(v: &BitVec<B>, st: &mut St, op: &str) {
         }
     }
 }
+    };
+}
+observe_fn!(observe_vec, BitVec<Vec<usize>>);
+observe_fn!(observe_box, BitVec<Box<[usize]>>);
+observe_fn!(observe_ref, BitVec<&[usize]>);
+
 
 fn check_storage(st: &mut St, actual: &[usize], op: &str) {
     if st.ctx.failed() {
@@ -209,7 +220,9 @@ fn check_storage(st: &mut St, actual: &[usize], op: &str) {
 }
 
 /// Mutations available on any backend. Returns true if the contents changed.
-fn common<B: AsRef<[usize]> + AsMut<[usize]>>(v: &mut BitVec<B>, st: &mut St, op: &Op) -> bool {
+macro_rules! common_fn {
+    ($name:ident, $ty:ty) => {
+        fn $name(v: &mut $ty, st: &mut St, op: &Op) -> bool {
     let n = st.bits.len();
     match op {
         Op::Set(i, b) if *i < n => {
@@ -281,6 +294,11 @@ fn common<B: AsRef<[usize]> + AsMut<[usize]>>(v: &mut BitVec<B>, st: &mut St, op
         _ => false,
     }
 }
+    };
+}
+common_fn!(common_vec, BitVec<Vec<usize>>);
+common_fn!(common_mut, BitVec<&mut [usize]>);
+
 
 fn atomic_session(v: BitVec<Vec<usize>>, st: &mut St, aops: &[AOp]) -> BitVec<Vec<usize>> {
     set_op("bv:into_atomic");
@@ -431,10 +449,10 @@ pub fn run(case: &BitsCase, ctx: &mut Ctx) {
         }
     };
     match &obj {
-        Obj::Grow(v) => observe(v, &mut st, "init"),
+        Obj::Grow(v) => observe_vec(v, &mut st, "init"),
         Obj::Raw { st: w, len } => {
             let v: BitVec<&[usize]> = unsafe { BitVec::from_raw_parts(&w[..], *len) };
-            observe(&v, &mut st, "init");
+            observe_ref(&v, &mut st, "init");
         }
     }
     for (si, op) in case.ops.iter().enumerate() {
@@ -476,7 +494,7 @@ pub fn run(case: &BitsCase, ctx: &mut Ctx) {
                         set_op("bv:box_roundtrip");
                         let taken = std::mem::replace(v, BitVec::new(0));
                         let b: BitVec<Box<[usize]>> = taken.into();
-                        observe(&b, &mut st, "into_box");
+                        observe_box(&b, &mut st, "into_box");
                         *v = b.into();
                     }
                     Op::Atomic(aops) => {
@@ -488,10 +506,10 @@ pub fn run(case: &BitsCase, ctx: &mut Ctx) {
                         *v = atomic_reject(taken, &mut st, *k);
                     }
                     _ => {
-                        common(v, &mut st, op);
+                        common_vec(v, &mut st, op);
                     }
                 }
-                observe(&*v, &mut st, &opname);
+                observe_vec(&*v, &mut st, &opname);
             }
             Obj::Raw { st: w, len } => {
                 let n = *len;
@@ -523,7 +541,7 @@ pub fn run(case: &BitsCase, ctx: &mut Ctx) {
                     _ => {
                         let modified = {
                             let mut v: BitVec<&mut [usize]> = unsafe { BitVec::from_raw_parts(&mut w[..], n) };
-                            common(&mut v, &mut st, op)
+                            common_mut(&mut v, &mut st, op)
                         };
                         if modified {
                             let bits = st.bits.clone();
@@ -533,7 +551,7 @@ pub fn run(case: &BitsCase, ctx: &mut Ctx) {
                     }
                 }
                 let v: BitVec<&[usize]> = unsafe { BitVec::from_raw_parts(&w[..], n) };
-                observe(&v, &mut st, &opname);
+                observe_ref(&v, &mut st, &opname);
             }
         }
     }
